@@ -18,6 +18,7 @@ Definition step (s : st) (a : action) : st :=
   let s0 := set_oversize false s in
   emit (match a with
         | AWrite l (Some d) =>
+          if negb (l_safe l) then set_success false s0 else
           if l_len d <? MAX_RECORD_SIZE then
             if get_new_ple d then push_ple (l_idx l, l_id d) (set_success true s0)
             else set_success false s0
@@ -38,6 +39,7 @@ Lemma step_setp p s a : step (set_processed p s) a = set_processed p (step s a).
 Proof.
   unfold step. rewrite <- emit_setp. f_equal.
   destruct a as [l [d|]|l [d|]|l]; try (destruct s; reflexivity).
+  destruct (l_safe l); cbn [negb]; [|destruct s; reflexivity].
   destruct (l_len d <? MAX_RECORD_SIZE); [destruct (get_new_ple d)|]; destruct s; reflexivity.
 Qed.
 
@@ -49,9 +51,12 @@ Proof.
 Qed.
 
 Lemma emit_write_doc a d s : exists q,
-  emit (write_doc (l_idx a) d (set_oversize false s)) = set_processed q (step s (AWrite a (Some d))).
+  (if negb (l_safe a) then emit (set_success false (set_oversize false s))
+   else emit (write_doc (l_idx a) d (set_oversize false s)))
+  = set_processed q (step s (AWrite a (Some d))).
 Proof.
   unfold step, write_doc.
+  destruct (l_safe a); cbn [negb]; [|exists (processed s); destruct s; reflexivity].
   destruct (l_len d <? MAX_RECORD_SIZE).
   - exists (processed s + 1). rewrite <- emit_setp. f_equal.
     destruct (get_new_ple d); destruct s; reflexivity.
@@ -86,6 +91,8 @@ Lemma loop_cons a rem s : loop (a :: rem) s =
     | d :: rem' =>
       if (l_len d =? 0) && buf_empty rem'
       then loop rem' (emit (set_success false s0))
+      else if negb (l_safe a)
+      then loop rem' (emit (set_success false s0))
       else loop rem' (emit (write_doc (l_idx a) d s0))
     end
   | UPDATE =>
@@ -117,7 +124,8 @@ Proof.
           destruct (IH rem' ltac:(lia) (emit (set_success false (set_oversize false s)))) as [p Hp];
           exists p; rewrite Hp, (buf_empty_lines _ Er); reflexivity
         | rewrite (body_lines_cons _ _ Em);
-          destruct (emit_write_doc a d s) as [q Hq]; rewrite Hq;
+          destruct (emit_write_doc a d s) as [q Hq];
+          destruct (l_safe a); cbn [negb] in Hq |- *; rewrite Hq;
           destruct (IH rem' ltac:(lia) (set_processed q (step s (AWrite a (Some d))))) as [p Hp];
           exists p; rewrite Hp; cbn [fold_left]; now rewrite fold_setp, setp_setp ] ]).
     + destruct rem as [|d rem'];
@@ -157,6 +165,7 @@ Proof.
     cbn [success oversize overall atleast items ples set_success set_oversize set_overall set_atleast push_item push_ple negb].
   2,3,4,5: cbn; rewrite ?app_nil_r, ?Bool.orb_true_r, ?Bool.orb_false_r; auto.
   rewrite leb_ltb.
+  destruct (l_safe l); cbn [negb andb]; [|cbn; rewrite ?app_nil_r, ?Bool.orb_true_r, ?Bool.orb_false_r; auto].
   destruct (l_len d <? MAX_RECORD_SIZE); destruct (l_len d =? 0); destruct (l_parses d);
     cbn; rewrite ?app_nil_r, ?Bool.orb_true_r, ?Bool.orb_false_r; auto.
 Qed.
@@ -385,11 +394,11 @@ End Once.
 
 (* ---------- witnesses (checked by vm_compute) ---------- *)
 
-Definition ln_index (idx : N) : line := mkLine 24 KIndex idx false 0.
-Definition ln_delete : line := mkLine 25 KDelete 1 false 0.
-Definition ln_doc (id : N) : line := mkLine 40 KUnknown 0 true id.
-Definition ln_bad : line := mkLine 9 KBadJson 0 false 0.
-Definition ln_big (id : N) : line := mkLine 63000 KUnknown 0 true id.
+Definition ln_index (idx : N) : line := mkLine 24 KIndex idx true false 0.
+Definition ln_delete : line := mkLine 25 KDelete 1 true false 0.
+Definition ln_doc (id : N) : line := mkLine 40 KUnknown 0 true true id.
+Definition ln_bad : line := mkLine 9 KBadJson 0 true false 0.
+Definition ln_big (id : N) : line := mkLine 63000 KUnknown 0 true true id.
 Definition all_ok (_ : N) : bool := true.
 Definition none_ok (_ : N) : bool := false.
 
@@ -404,6 +413,12 @@ Definition w_store : list line := [ln_index 1; ln_doc 1; empty_line].
 (* a body that exercises every branch, ending with a lone action and no final newline *)
 Definition w_good : list line :=
   [ln_index 1; ln_doc 1; ln_delete; ln_index 2; ln_bad; ln_index 2; ln_big 5; ln_index 2; ln_doc 2; ln_delete].
+
+(* an index action with an unusable index name whose document line is itself a
+   well-formed index action line, then a real index action with its document *)
+Definition ln_unsafe : line := mkLine 22 KIndex 20 false true 0.
+Definition ln_actdoc : line := mkLine 30 KIndex 2 true true 7.
+Definition w_unsafe : list line := [ln_unsafe; ln_actdoc; ln_index 1; ln_doc 3; empty_line].
 
 (* still open: a failing store call after the statuses were assigned *)
 Theorem created_iff_stored_refuted : exists store_ok b i a k,
